@@ -32,6 +32,13 @@ address constraint) — i.e. it can only act on the signer's own accounts -/
 def Guarded (ix : IxId) : Bool :=
   (info ix).attr.isSome || (decide ((info ix).signers > 0) && decide ((info ix).ownerBound > 0))
 
+/-- tied to a signer by the accounts struct (`has_one = <signer>`, the signer's key in the seeds, address constraint) -/
+def OwnerBound (ix : IxId) : Bool := decide ((info ix).signers > 0) && decide ((info ix).ownerBound > 0)
+
+/-- outcome of presenting an owner-bound instruction's accounts: Anchor checks the tie during account
+validation, so a signer other than the recorded owner is rejected before the handler runs -/
+def ownerCallPasses (ix : IxId) (isRecordedOwner : Bool) : Bool := isRecordedOwner || !OwnerBound ix
+
 /-- `Close::preprocess`: the caller may close when it owns the action, or holds the keeper role and the
 action is finished (or the implementation skips that check) -/
 def closeAllowed (isOwner hasKeeperRole skipsCompletionCheck completedOrCancelled : Bool) : Bool :=
